@@ -1431,6 +1431,37 @@ impl PeerConnection {
                 || previous.media_sections != desc.media_sections
         });
 
+        // Reject everything that can be rejected before anything is applied.
+        {
+            let state = *self.inner.signaling_state.borrow();
+            let allowed = match desc.sdp_type {
+                SdpType::Offer => state == SignalingState::Stable,
+                SdpType::Answer | SdpType::Pranswer => state == SignalingState::HaveLocalOffer,
+                SdpType::Rollback => false,
+            };
+            if !allowed {
+                return Err(RtcError::InvalidState(format!(
+                    "set_remote_description({}) is not allowed in signaling state {:?}",
+                    desc.sdp_type.as_str(),
+                    state
+                )));
+            }
+        }
+
+        {
+            // Cache the remote fingerprint before ICE/DTLS starts so the handshake can bind
+            // the SDP identity to the certificate actually presented on the wire.
+            let dtls_started = self.inner.dtls_transport.lock().is_some();
+            let mut stored = self.inner.remote_dtls_fingerprint.lock();
+            if dtls_started && *stored != remote_dtls_fingerprint {
+                return Err(RtcError::InvalidState(
+                    "changing remote DTLS fingerprint after transport start is not supported"
+                        .into(),
+                ));
+            }
+            *stored = remote_dtls_fingerprint;
+        }
+
         if previous_remote.is_some() && media_parameters_changed {
             // Apply changed media parameters to the existing transports.
             let current_state = *self.inner.signaling_state.borrow();
@@ -1540,20 +1571,6 @@ impl PeerConnection {
                     let _ = self.inner.dtls_role.send(Some(r));
                 }
             }
-        }
-
-        {
-            // Cache the remote fingerprint before ICE/DTLS starts so the handshake can bind
-            // the SDP identity to the certificate actually presented on the wire.
-            let dtls_started = self.inner.dtls_transport.lock().is_some();
-            let mut stored = self.inner.remote_dtls_fingerprint.lock();
-            if dtls_started && *stored != remote_dtls_fingerprint {
-                return Err(RtcError::InvalidState(
-                    "changing remote DTLS fingerprint after transport start is not supported"
-                        .into(),
-                ));
-            }
-            *stored = remote_dtls_fingerprint;
         }
 
         // Start ICE
